@@ -306,23 +306,9 @@ func (d *dbInfo) successfulCheck(c eng.Cond, prm *ssa.Parameter, action string, 
 // function literals) those holding where the literal was created: facts are
 // about immutable SSA values, so they still hold when the literal runs.
 func factsDeep(in ssa.Instruction) []eng.Cond {
-	out := eng.FactsAt(in)
-	f := in.Parent()
-	for f != nil && f.Parent() != nil {
-		par := f.Parent()
-		var mk ssa.Instruction
-		eng.Instrs(par, func(x ssa.Instruction) {
-			if mc, ok := x.(*ssa.MakeClosure); ok && mc.Fn == f {
-				mk = x
-			}
-		})
-		if mk == nil {
-			break
-		}
-		out = append(out, eng.FactsAt(mk)...)
-		f = par
-	}
-	return out
+	// ... and, for instructions in a helper with a single call site, those
+	// holding at that call site
+	return eng.FactsX(in)
 }
 
 func factsStr(cs []eng.Cond) string {
